@@ -413,6 +413,30 @@ func ExactFill(r *engine.RNG, cfg Config, slack int) *Session {
 	if s.Consumed != s.Flushed {
 		s.fail("C12", "exact-fill-read", "full file: %d of %d flushed events delivered", s.Consumed, s.Flushed)
 	}
+	if s.Consumed-s.Acked > 8 && r.Chance(50) {
+		// "reports full without loss, can always be drained" across a restart: ACK a few events only (on a full
+		// file the ACK transaction uses the overflow area), let a flush of more events than that freed pages for
+		// fail, restart, and everything flushed and not ACKed must still be there
+		s.ACK(2 + r.Intn(3))
+		for i := 0; i < 6; i++ {
+			if s.WriteChunk(sz) != "ok" || s.Next() != "ok" {
+				break
+			}
+		}
+		if s.Flush() != "ok" {
+			s.mark("exact-fill-flush-fails-after-partial-ack")
+		}
+		s.Close()
+		if s.Open() != "ok" {
+			s.fail("C12", "exact-fill-restart", "full file: the queue can not be opened again after a partial ACK and a flush that failed for lack of space")
+			return s
+		}
+		s.mark("exact-fill-restart")
+		s.drain(r, 1<<30)
+		if s.Consumed != s.Flushed {
+			s.fail("C12", "exact-fill-restart", "full file after a restart: %d of %d flushed events delivered", s.Consumed, s.Flushed)
+		}
+	}
 	if s.Consumed > s.Acked {
 		s.ACK(s.Consumed - s.Acked) // a failure is reported by ACK itself (C12 ack-failed)
 	}
